@@ -130,24 +130,26 @@ func (i Info) AppendHash(dst []byte, h hash.Hash) []byte {
 	})
 	for _, infoForm := range forms {
 		formType := capsFormType(&infoForm)
-		fields := make([]string, 0, infoForm.Len())
+		fields := make([]form.FieldData, 0, infoForm.Len())
 		infoForm.ForFields(func(f form.FieldData) {
 			if f.Var == "FORM_TYPE" {
 				return
 			}
-			fields = append(fields, f.Var)
+			fields = append(fields, f)
 		})
-		sort.Strings(fields)
+		sort.SliceStable(fields, func(a, b int) bool {
+			return fields[a].Var < fields[b].Var
+		})
 		/* #nosec */
 		io.WriteString(h, formType)
 		/* #nosec */
 		io.WriteString(h, "<")
 		for _, f := range fields {
 			/* #nosec */
-			io.WriteString(h, f)
+			io.WriteString(h, f.Var)
 			/* #nosec */
 			io.WriteString(h, "<")
-			vals, _ := infoForm.Raw(f)
+			vals := f.Raw
 			sort.Strings(vals)
 			for _, val := range vals {
 				/* #nosec */
